@@ -727,7 +727,7 @@ class Learner2D(BaseLearner):
         if not self.inside_bounds(point):
             return
         self.pending_points.discard(point)
-        self._ip = None
+        self._ip = self._ip_combined = None
         self._stack.pop(point, None)
 
     def tell_pending(self, point: tuple[float, float]) -> None:
@@ -821,6 +821,7 @@ class Learner2D(BaseLearner):
 
     def remove_unfinished(self) -> None:
         self.pending_points = set()
+        self._ip_combined = None
         for p in self._bounds_points:
             if p not in self.data:
                 self._stack[p] = np.inf
